@@ -119,3 +119,9 @@ Print Assumptions C10_translator_flags.
 Theorem C10_decoder_entry_bounded : V0_DECODER_ENTRY = "from_slice"%string.
 Proof. exact decoder_entry_bounded. Qed.
 Print Assumptions C10_decoder_entry_bounded.
+
+(* what serialize writes (model of SerializeFormat::serialize, tied byte for byte by C09's run) is
+   always dispatched to the v0 decoder, with exactly the encoded payload *)
+Theorem C10_own_output_dispatch : forall w, header_dispatch (serialize_wire w) = Ok (DDecode (encode (wire_tree w))).
+Proof. exact own_output_dispatch. Qed.
+Print Assumptions C10_own_output_dispatch.
